@@ -6,6 +6,7 @@ input archives (read with an own zip reader).
 """
 import csv
 import io
+import json
 import math
 import os
 
@@ -158,8 +159,16 @@ def k_merge(run, case):
                       (k, [a.size for a in arrs]), key="merge:not-concatenated")
 
 
-def parse_csv(path):
+def parse_csv(path, transposed=True):
     rows = list(csv.reader(io.StringIO(open(path, encoding="utf-8").read())))
+    if not transposed:
+        # package setting table_export_transpose = false: one row per statistic, one column per label
+        labels = rows[0][1:]
+        header = [r[0] for r in rows[1:]]
+        table = {}
+        for c, lab in enumerate(labels):
+            table.setdefault(lab, []).append({r[0]: r[1 + c] for r in rows[1:]})
+        return header, table, list(labels)
     header = rows[0][1:]
     table = {}
     order = []
@@ -181,6 +190,7 @@ def res_cli(run, case, rng, work):
     # a statistic that is exactly 0.0 in every result of the call (e.g. min after origin alignment)
     zero_keys = [STAT_KEYS[rng.integers(len(STAT_KEYS))]] if rng.random() < .2 else []
     name_class = ["plain", "plain", "plain", "plain", "brackets", "odd"][rng.integers(6)]
+    holes_in = int(rng.integers(n)) if rng.random() < .15 else -1
     for i in range(n):
         if rng.random() < .25 and not zero_keys:
             # a real evo_ape archive
@@ -202,6 +212,8 @@ def res_cli(run, case, rng, work):
             r = make_result(rng, STAT_KEYS, ["error_array"], lengths, int(rng.integers(2**31)), name)
             for zk in zero_keys:
                 r.stats[zk] = 0.0
+            if i == holes_in and not merge:
+                r.stats.pop(STAT_KEYS[rng.integers(len(STAT_KEYS))])  # an older file without that statistic
             p = os.path.join(work, "gen%d.zip" % i)
             if name_class == "brackets":
                 # a legal file name that is also a glob pattern matching a sibling (not listed) file
@@ -236,7 +248,19 @@ def res_cli(run, case, rng, work):
     for extra in (["-v"], ["--silent"], ["--debug"], ["--use_rel_time"], ["--plot_markers"], ["--logfile", "log.txt"]):
         if rng.random() < .08:
             argv += extra
-    res = cli.run_cli("res", argv, cwd=work)
+    # package settings that shape the table (here given for the session through -c)
+    transposed = bool(rng.random() >= .25)
+    # package setting table_export_transpose: evo binds it as a default argument of
+    # save_df_as_table when the module is imported - a process started with the setting switched
+    # off in ~/.evo/settings.json is emulated by that function's defaults
+    from evo.tools import pandas_bridge
+    saved_defaults = pandas_bridge.save_df_as_table.__defaults__
+    try:
+        if not transposed:
+            pandas_bridge.save_df_as_table.__defaults__ = (saved_defaults[0], False) + tuple(saved_defaults[2:])
+        res = cli.run_cli("res", argv, cwd=work)
+    finally:
+        pandas_bridge.save_df_as_table.__defaults__ = saved_defaults
     got = C01.outcome_class(res)
     run.seen(case, core.digest([z["stats"] for z in stored], argv), nontrivial=n > 1,
              cls=["evo_res n=%d" % n, "labels:" + ("filenames" if use_filenames else "est_name"),
@@ -257,7 +281,7 @@ def res_cli(run, case, rng, work):
     if not run.check(got is None, "evo_res succeeds", case, "evo_res failed with %s: %r (argv %s)" %
                      (got, res.exc, argv), key="res:unexpected-failure"):
         return
-    header, table, order = parse_csv(os.path.join(work, "table.csv"))
+    header, table, order = parse_csv(os.path.join(work, "table.csv"), transposed)
     if merge:
         label = os.path.basename(stored[0]["info"]["est_name"])
         rows = table.get(label)
